@@ -465,6 +465,10 @@ func (c *Ctx) bin(k Kind, a, b *Term) *Term {
 			if r := c.tickMul(a, b); r != nil {
 				return r
 			}
+		case KAshr, KLshr:
+			if r := c.tickShift(a, b); r != nil {
+				return r
+			}
 		}
 	}
 	switch k {
@@ -857,7 +861,11 @@ func sortStr(w int) string {
 }
 
 func smtName(s string) string {
-	return "|" + strings.NewReplacer("|", "_", "\\", "_").Replace(s) + "|"
+	s = strings.NewReplacer("|", "_", "\\", "_").Replace(s)
+	if strings.HasPrefix(s, "@") || strings.HasPrefix(s, ".") {
+		s = "AT_" + s[1:] // symbols starting with @ or . are reserved in SMT-LIB
+	}
+	return "|" + s + "|"
 }
 
 func constStr(t *Term) string {
@@ -1017,3 +1025,32 @@ func mask1(w int) uint64 {
 }
 
 var _ = bits.Len
+
+// evalDefault evaluates t under m, taking 0 for variables the model does not mention.
+func (c *Ctx) evalDefault(t *Term, m *Model, memo map[int]uint64) (uint64, bool) {
+	if t.hasUF {
+		return 0, false
+	}
+	full := &Model{Vars: map[string]uint64{}}
+	for k, v := range m.Vars {
+		full.Vars[k] = v
+	}
+	var fill func(x *Term)
+	seen := map[int]bool{}
+	fill = func(x *Term) {
+		if seen[x.ID] {
+			return
+		}
+		seen[x.ID] = true
+		if x.K == KVar {
+			if _, ok := full.Vars[x.Name]; !ok {
+				full.Vars[x.Name] = 0
+			}
+		}
+		for _, a := range x.Args {
+			fill(a)
+		}
+	}
+	fill(t)
+	return c.Eval(t, full, memo)
+}
